@@ -14,6 +14,10 @@ for sha in $(git -C "$W" log --reverse --format='%h' HEAD --not $(git -C /repo r
     *) echo "NOT a fix: commit, skipping: $sha $subj"; continue ;;
   esac
   if ! git -C /repo cherry-pick $sha >/dev/null 2>/tmp/cp.err; then
+    if git -C /repo diff --quiet && git -C /repo diff --cached --quiet; then
+      git -C /repo cherry-pick --skip >/dev/null 2>&1
+      echo "EMPTY (change already present in main): $sha $subj"; continue
+    fi
     echo "CONFLICT on $sha $subj"; cat /tmp/cp.err | head -5; git -C /repo cherry-pick --abort; exit 1
   fi
   new=$(git -C /repo rev-parse --short HEAD)
